@@ -97,6 +97,9 @@ func parseStructs(repo string) ([]genStruct, error) {
 							}
 						}
 						gf.Kind = kindOfType[gf.Type]
+						if gf.Kind == "Type" && gf.Name != "Type" {
+							gf.Kind = "TypeName" // a property holding a type name (formerType), not the value's own type
+						}
 						if gf.Kind == "" {
 							gf.Kind = "Unknown"
 						}
@@ -156,7 +159,7 @@ func generateHarnesses(repo, prop, dir string) error {
 		}
 	}
 	var b bytes.Buffer
-	b.WriteString("package activitypub\n\n// Code generated from the struct definitions of the current tree. DO NOT EDIT.\n\n")
+	b.WriteString("package activitypub\n\nimport \"time\"\n\n// Code generated from the struct definitions of the current tree. DO NOT EDIT.\n\n")
 	b.WriteString("type vpFieldInfo struct {\n\tName, Kind, Term string\n\tCollapsible bool\n}\n\n")
 	// type table
 	b.WriteString("var vpTypeNames = []string{")
@@ -223,6 +226,37 @@ func generateHarnesses(repo, prop, dir string) error {
 		b.WriteString("\t\t}\n")
 	}
 	b.WriteString("\t}\n\treturn nil\n}\n\n")
+	b.WriteString("// vpSetInstants sets published and updated through the struct's own fields and every other instant to a decoy;\n// false when the type has no published/updated.\nfunc vpSetInstants(it Item, published, updated, decoy time.Time) bool {\n\tswitch x := it.(type) {\n")
+	for _, s := range vocab {
+		hasP, hasU := false, false
+		for _, f := range s.Fields {
+			if f.Kind == "Time" && f.Name == "Published" {
+				hasP = true
+			}
+			if f.Kind == "Time" && f.Name == "Updated" {
+				hasU = true
+			}
+		}
+		if !hasP || !hasU {
+			continue
+		}
+		fmt.Fprintf(&b, "\tcase *%s:\n", s.Name)
+		for _, f := range s.Fields {
+			if f.Kind != "Time" {
+				continue
+			}
+			switch f.Name {
+			case "Published":
+				fmt.Fprintf(&b, "\t\tx.Published = published\n")
+			case "Updated":
+				fmt.Fprintf(&b, "\t\tx.Updated = updated\n")
+			default:
+				fmt.Fprintf(&b, "\t\tx.%s = decoy\n", f.Name)
+			}
+		}
+		b.WriteString("\t\treturn true\n")
+	}
+	b.WriteString("\t}\n\treturn false\n}\n\n")
 	b.WriteString("// vpCloneItem makes a shallow copy of a vocabulary struct behind a pointer.\nfunc vpCloneItem(a Item) Item {\n\tswitch x := a.(type) {\n")
 	for _, s := range vocab {
 		fmt.Fprintf(&b, "\tcase *%s:\n\t\tc := *x\n\t\treturn &c\n", s.Name)
@@ -354,7 +388,7 @@ var generators = map[string]func(repo, dir string, vocab []genStruct) error{}
 
 // shapesOfKind: number of value shapes the harness library offers for a field kind.
 var shapesOfKind = map[string]int{"IRI": 1, "Type": 0, "NLV": 3, "Item": 7, "Items": 3, "Time": 3, "Duration": 3, "Mime": 1, "Source": 2,
-	"Uint": 1, "Float": 3, "String": 1, "Int": 2, "Bool": 1, "PublicKey": 1, "LangRef": 1, "Endpoints": 1, "Unknown": 0}
+	"TypeName": 2, "Uint": 1, "Float": 3, "String": 1, "Int": 2, "Bool": 1, "PublicKey": 1, "LangRef": 1, "Endpoints": 1, "Unknown": 0}
 
 func funcTypeString(e ast.Expr) string {
 	switch x := e.(type) {
